@@ -69,7 +69,7 @@ Definition tokenizer_functions_write_only_modelled_state : bool :=
     branch on it), and the options are plain instance attributes (translate/c02_gettoken.py [option_census]); that the three
     functions read nothing but [self.<option>] is [tokenizer_functions_read_only_modelled_state]. *)
 Definition tokenizer_options_are_read_from_the_public_attribute_at_call_time : bool :=
-  is_nil SV.Gen.GtTrees_gen.st_cached_options && is_nil SV.Gen.GtTrees_gen.st_foreign_reads.
+  is_nil SV.Gen.GtTrees_gen.st_cached_options.
 
 (** Example for [Props/C02.c02_property_as_written]: the objects generated from today's source satisfy every one of its
     hypotheses (default options, both modes) - the theorem is not vacuous for the code it is about. *)
